@@ -53,12 +53,13 @@ func (it *Interp) overflowCheck(v Value, limit *big.Int, limitBits int, msg stri
 		return v
 	}
 	s := v.(*Sym)
-	if s.Bits > 0 && s.Bits <= limitBits {
+	if absBelow(s, limit) {
 		return v
 	}
 	n := it.nameTerm(s)
 	it.panicIf(mkOr(mkCmp(">=", n, limit), mkCmp("<=", n, new(big.Int).Neg(limit))), msg)
-	return &Sym{S: SInt, T: n.T, Bits: limitBits, NonNeg: n.NonNeg}
+	lim1 := new(big.Int).Sub(limit, big.NewInt(1))
+	return withRange(n, new(big.Int).Neg(lim1), lim1)
 }
 
 func (it *Interp) mkIntV(v Value) IntV {
@@ -67,6 +68,21 @@ func (it *Interp) mkIntV(v Value) IntV {
 
 func (it *Interp) mkDecV(v Value) DecV {
 	return DecV{V: it.overflowCheck(v, maxDec315, 315, "Int overflow")}
+}
+
+// chopRange bounds v / 10^18 under any rounding mode.
+func chopRange(v Value) (lo, hi *big.Int) {
+	l, h := rng(v)
+	if l != nil {
+		lo = new(big.Int).Sub(new(big.Int).Div(l, pow10_18), big.NewInt(1))
+		if l.Sign() >= 0 {
+			lo = new(big.Int).Div(l, pow10_18)
+		}
+	}
+	if h != nil {
+		hi = new(big.Int).Add(new(big.Int).Div(h, pow10_18), big.NewInt(1))
+	}
+	return
 }
 
 func chopRound(v Value) Value {
@@ -87,28 +103,22 @@ func chopRound(v Value) Value {
 		}
 		return q
 	}
-	bits := 0
-	if bitsOf(v) > 0 {
-		bits = max(bitsOf(v)-59, 2)
-	}
+	lo, hi := chopRange(v)
 	if nonNeg(v) {
-		return symI("(chopRoundPos "+T(v)+")", bits, true)
+		return symI("(chopRoundPos "+T(v)+")", lo, hi)
 	}
-	return symI("(chopRound "+T(v)+")", bits, false)
+	return symI("(chopRound "+T(v)+")", lo, hi)
 }
 
 func chopTrunc(v Value) Value {
 	if b, ok := v.(*big.Int); ok {
 		return new(big.Int).Quo(b, pow10_18)
 	}
-	bits := 0
-	if bitsOf(v) > 0 {
-		bits = max(bitsOf(v)-59, 2)
-	}
+	lo, hi := chopRange(v)
 	if nonNeg(v) {
-		return symI("(div "+T(v)+" 1000000000000000000)", bits, true)
+		return symI("(div "+T(v)+" 1000000000000000000)", lo, hi)
 	}
-	return symI("(chopTrunc "+T(v)+")", bits, false)
+	return symI("(chopTrunc "+T(v)+")", lo, hi)
 }
 
 func chopRoundUp(v Value) Value {
@@ -122,11 +132,8 @@ func chopRoundUp(v Value) Value {
 		}
 		return q
 	}
-	bits := 0
-	if bitsOf(v) > 0 {
-		bits = max(bitsOf(v)-59, 2)
-	}
-	return symI("(chopRoundUp "+T(v)+")", bits, nonNeg(v))
+	lo, hi := chopRange(v)
+	return symI("(chopRoundUp "+T(v)+")", lo, hi)
 }
 
 func registerSdkMath(P *Program) {
@@ -196,7 +203,7 @@ func registerSdkMath(P *Program) {
 		v := it.intArg(a[0])
 		it.panicIf(mkNot(mkAnd(mkCmp(">=", v, i64lo), mkCmp("<=", v, i64hi))), "Int64() out of bound")
 		if s, ok := v.(*Sym); ok {
-			return &Sym{S: SInt, T: s.T, Bits: 63, NonNeg: s.NonNeg}
+			return withRange(s, i64lo, i64hi)
 		}
 		return v
 	})
@@ -204,7 +211,7 @@ func registerSdkMath(P *Program) {
 		v := it.intArg(a[0])
 		it.panicIf(mkNot(mkAnd(mkCmp(">=", v, big.NewInt(0)), mkCmp("<=", v, u64hi))), "Uint64() out of bounds")
 		if s, ok := v.(*Sym); ok {
-			return &Sym{S: SInt, T: s.T, Bits: 64, NonNeg: true}
+			return withRange(s, zero0, u64hi)
 		}
 		return v
 	})
@@ -251,7 +258,7 @@ func registerSdkMath(P *Program) {
 	safe := func(f func(x, y Value) Value) Intrinsic {
 		return func(it *Interp, a []Value) Value {
 			r := f(it.intArg(a[0]), it.intArg(a[1]))
-			if s, ok := r.(*Sym); ok && !(s.Bits > 0 && s.Bits <= 256) {
+			if s, ok := r.(*Sym); ok && !absBelow(s, maxInt256) {
 				if it.branchOn(mkOr(mkCmp(">=", r, maxInt256), mkCmp("<=", r, new(big.Int).Neg(maxInt256)))) {
 					return Tuple{IntV{Nil: true, V: big.NewInt(0)}, &ErrV{Root: "math/ErrIntOverflow", Msg: "Integer overflow"}}
 				}
@@ -347,7 +354,7 @@ func registerSdkMath(P *Program) {
 		case SymStr:
 			// decimal rendering of an integer: exact embedding (value * 10^18); the real function rejects > 315 bits
 			v := mkMul(s.V, pow10_18)
-			if sy, ok := v.(*Sym); ok && !(sy.Bits > 0 && sy.Bits <= 315) {
+			if sy, ok := v.(*Sym); ok && !absBelow(sy, maxDec315) {
 				if it.branchOn(mkOr(mkCmp(">=", v, maxDec315), mkCmp("<=", v, new(big.Int).Neg(maxDec315)))) {
 					return Tuple{DecV{Nil: true, V: big.NewInt(0)}, &ErrV{Root: "math/dec-range", Msg: "decimal out of range"}}
 				}
@@ -439,7 +446,7 @@ func registerSdkMath(P *Program) {
 		v := chopTrunc(it.decArg(a[0]))
 		it.panicIf(mkNot(mkAnd(mkCmp(">=", v, i64lo), mkCmp("<=", v, i64hi))), "Int64() out of bound")
 		if s, ok := v.(*Sym); ok {
-			return &Sym{S: SInt, T: s.T, Bits: 63, NonNeg: s.NonNeg}
+			return withRange(s, i64lo, i64hi)
 		}
 		return v
 	})
@@ -447,7 +454,7 @@ func registerSdkMath(P *Program) {
 		v := chopRound(it.decArg(a[0]))
 		it.panicIf(mkNot(mkAnd(mkCmp(">=", v, i64lo), mkCmp("<=", v, i64hi))), "Int64() out of bound")
 		if s, ok := v.(*Sym); ok {
-			return &Sym{S: SInt, T: s.T, Bits: 63, NonNeg: s.NonNeg}
+			return withRange(s, i64lo, i64hi)
 		}
 		return v
 	})
